@@ -102,6 +102,45 @@ func scaleProgram(cs []Call, k int) []Call {
 	return out
 }
 
+// pow2Expressible reports whether scaleProgram re-expresses cs faithfully: every gradient that is actually
+// painted must take the matrix entries a, b, d, e from number-register writes that scaleProgram scales (or
+// from the zero a Reset leaves), and c, f and the stop offsets from writes it leaves alone.  A colour that
+// merely happens to be a gradient value naming another gradient's registers (stop offsets read as a matrix)
+// has no power-of-two re-expression of this form, and the metamorphic relation says nothing about it.
+func pow2Expressible(cs []Call, height int) bool {
+	var m vm
+	var scaled, written [64]bool
+	for _, c := range cs {
+		if c.Name == "reset" {
+			scaled, written = [64]bool{}, [64]bool{}
+		}
+		if c.Name == "nreg" {
+			k := (m.nsel - c.Adj) & 0x3f
+			written[k] = true
+			scaled[k] = !c.Incr && (c.Adj == 6 || c.Adj == 5 || c.Adj == 3 || c.Adj == 2)
+		}
+		paint, isStart := m.step(c, height)
+		if !isStart || !strings.HasPrefix(paint, "G") {
+			continue
+		}
+		col := m.creg[(m.csel-c.Adj)&0x3f]
+		nStops, nBase := int(col.R&0x3f), col.B&0x3f
+		for j, wantScaled := range []bool{true, true, false, true, true, false} {
+			k := (nBase - 6 + uint8(j)) & 0x3f
+			if written[k] && scaled[k] != wantScaled && m.nreg[k] != 0 {
+				return false
+			}
+		}
+		for j := 0; j < nStops; j++ {
+			k := (nBase + uint8(j)) & 0x3f
+			if written[k] && scaled[k] && m.nreg[k] != 0 {
+				return false
+			}
+		}
+	}
+	return true
+}
+
 // directColours re-expresses a program with every palette/register/blend colour replaced by the
 // direct colour it resolves to (computed with the specification VM).
 func directColours(cs []Call) []Call {
@@ -198,7 +237,7 @@ func monitorPixels(line string, cs []Call, r *RNG) (fails []Failure) {
 	// (b) power-of-two scaling
 	k := []int{1, 2, 3, -1, -2, 5}[r.Intn(6)]
 	scaled, _, p := renderPixels(scaleProgram(cs, k), alpha, own, own, op, false)
-	if p == "" && !sameImage(base, scaled) {
+	if p == "" && pow2Expressible(cs, h) && !sameImage(base, scaled) {
 		fails = append(fails, Failure{"C16.pow2-scaling", line, fmt.Sprintf("%dx%d alpha=%v scale 2^%d: pixels differ at %v", w, h, alpha, k, firstPixelDiff(base, scaled))})
 	}
 	// (c) colour indirection
